@@ -36,11 +36,12 @@ ChgAfter(new) == IF pcm # "start" /\ new # Stable THEN chg - 1 ELSE chg
 MCInit == InitWith(Cfg0) /\ chg = MAXCHG
 
 \* one definition per action so that TLC's coverage statistics are per action
-cMRefresh0   == \E new \in NewLists : MRefresh0(new) /\ chg' = ChgAfter(new)
-cMRule       == \E new \in NewLists : MRule(new) /\ chg' = ChgAfter(new)
-cMRefresh2   == \E new \in NewLists : MRefresh2(new) /\ chg' = ChgAfter(new)
-cMSeqRefresh == \E new \in NewLists : MSeqRefresh(new) /\ chg' = ChgAfter(new)
-cMSeqRule    == \E new \in NewLists : MSeqRule(new) /\ chg' = ChgAfter(new)
+\* (the pc guard is repeated in front of the quantifier so that TLC does not enumerate NewLists in vain)
+cMRefresh0   == pcm = "start" /\ \E new \in NewLists : MRefresh0(new) /\ chg' = ChgAfter(new)
+cMRule       == pcm = "c_budget" /\ \E new \in NewLists : MRule(new) /\ chg' = ChgAfter(new)
+cMRefresh2   == pcm \in {"c_budget", "c_checkout"} /\ \E new \in NewLists : MRefresh2(new) /\ chg' = ChgAfter(new)
+cMSeqRefresh == pcm = "s_next" /\ \E new \in NewLists : MSeqRefresh(new) /\ chg' = ChgAfter(new)
+cMSeqRule    == pcm = "s_rule" /\ \E new \in NewLists : MSeqRule(new) /\ chg' = ChgAfter(new)
 cMLaunch      == MLaunch /\ UNCHANGED chg
 cMTest        == MTest /\ UNCHANGED chg
 cMWaitCheck   == MWaitCheck /\ UNCHANGED chg
